@@ -16,6 +16,8 @@ TRUSTED_BASE = ["harness/detsched.py (the interrupt is injected where queue.join
 def run(ctx):
     camp = engine_corr.EngineCampaign(ctx)
     camp.sentinel()
+    import translate_engine
+    translate_engine.check(ctx)      # the engine's atomic blocks (incl. the coordinator's finally) compiled from the source and linked to Engine.v
     rng = ctx.rng
     ngraphs = ctx.n(25, 250)
     ntargeted = ctx.n(10, 60)
